@@ -1079,6 +1079,52 @@ func checkProduced() {
 				fail(kind+":public:encode-aliases-internal-state", "Encode()/EncodeCompressed() changes after the caller overwrote an earlier result", map[string]any{"kind": kind, "encoded": ev.Hex(b0), "after": ev.Hex(b2)})
 			}
 		}
+		// the bytes handed to a decoder belong to the caller too: reusing, wiping or refilling the input
+		// buffer afterwards (with garbage, zeros, another valid key) must not change the decoded object
+		otherOf := func(n int) []byte {
+			o := append([]byte{}, e[:n]...)
+			if osk, err := crypto.GeneratePrivateKey(algo, seedBytes("alias-other-key", 48)); err == nil {
+				if n == len(e) {
+					o = osk.PublicKey().Encode()
+				} else {
+					o = osk.PublicKey().EncodeCompressed()
+				}
+			}
+			return o
+		}
+		for ci, dec := range []func([]byte) (crypto.PublicKey, error){
+			func(b []byte) (crypto.PublicKey, error) { return crypto.DecodePublicKey(algo, b) },
+			func(b []byte) (crypto.PublicKey, error) { return crypto.DecodePublicKeyCompressed(algo, b) },
+		} {
+			src := e
+			if ci == 1 {
+				src = pk.EncodeCompressed()
+			}
+			for _, how := range []string{"xor-a5", "zero", "another-valid-key"} {
+				buf := append([]byte{}, src...)
+				d, err := dec(buf)
+				if err != nil {
+					continue // reported above
+				}
+				switch how {
+				case "xor-a5":
+					for i := range buf {
+						buf[i] ^= 0xA5
+					}
+				case "zero":
+					for i := range buf {
+						buf[i] = 0
+					}
+				default:
+					copy(buf, otherOf(len(buf)))
+				}
+				run.Add("evaluations", 1)
+				if !bytes.Equal(d.Encode(), e) || !bytes.Equal(d.EncodeCompressed(), pk.EncodeCompressed()) || !d.Equals(pk) || !pk.Equals(d) {
+					fail(kind+":public:decode-aliases-input-buffer", fmt.Sprintf("a key decoded from a buffer changes its encoding / equality after the caller reused the buffer (%s, compressed=%v)", how, ci == 1),
+						map[string]any{"kind": kind, "encoded": ev.Hex(src), "buffer_after": ev.Hex(buf), "encode_after": ev.Hex(d.Encode())})
+				}
+			}
+		}
 		run.Distinct("produced/" + kind + "/" + ev.Hex(e))
 		outcome("produced/public/" + kind)
 	}
@@ -1096,6 +1142,24 @@ func checkProduced() {
 			}
 			if b2 := sk.Encode(); !bytes.Equal(b2, e) {
 				fail(kind+":private:encode-aliases-internal-state", "Encode() of a private key changes after the caller overwrote an earlier result", map[string]any{"kind": kind})
+			}
+		}
+		for _, how := range []string{"xor-a5", "zero"} {
+			buf := append([]byte{}, e...)
+			d, err := crypto.DecodePrivateKey(algo, buf)
+			if err != nil {
+				continue
+			}
+			for i := range buf {
+				if how == "zero" {
+					buf[i] = 0
+				} else {
+					buf[i] ^= 0xA5
+				}
+			}
+			run.Add("evaluations", 1)
+			if !bytes.Equal(d.Encode(), e) || !d.Equals(sk) || !bytes.Equal(d.PublicKey().Encode(), sk.PublicKey().Encode()) {
+				fail(kind+":private:decode-aliases-input-buffer", "a private key decoded from a buffer changes after the caller reused the buffer ("+how+")", map[string]any{"kind": kind})
 			}
 		}
 		run.Distinct("produced/" + kind + "/" + ev.Hex(e))
